@@ -158,13 +158,10 @@ def _r2(ctx, pkg):
               found=str(sorted(MARKERS - lst)) + " missing")
     fn = pkg.method("UCLCHEMReaction", "_parse_string")
     fl = Flow(fn, "naunet/reactions/uclchemreaction.py")
-    kw = fl.assigns.get("kwlist", [])
-    ok = False
-    if kw:
-        v = simp(kw[-1][0])
-        ok = v == ("list", (("star", ("meth", ("attr", SELF, "reactant2type"), "keys", (), ())), ("const", "NAN")))
-    ctx.check(ok, "R2", "UCLCHEM:kwlist", ("naunet/reactions/uclchemreaction.py", fn.lineno), "the keyword list is every key of reactant2type plus the filler NAN",
-              found=show(simp(kw[-1][0]))[:100] if kw else "missing")
+    # the keyword list is found by role: it is what the tokens are tested against (`tok not in <list>`) in the comprehensions
+    # that create the reactants and the products
+    WANT = ("list", (("star", ("meth", ("attr", SELF, "reactant2type"), "keys", (), ())), ("const", "NAN")))
+    lists = []
     for attr in ("reactants", "products"):
         st = [f for f in fl.facts if f.kind == "attrstore" and f.target == attr]
         good = False
@@ -172,9 +169,14 @@ def _r2(ctx, pkg):
             m = as_map(simp(st[-1].value))
             if m:
                 bv, body, base, ifs = m
-                good = any(c[0] == "cmp" and c[1] == ("NotIn",) and c[2][0] == bv and kw and c[2][1] == simp(kw[-1][0]) for c in ifs)
+                ks = [c[2][1] for c in ifs if c[0] == "cmp" and c[1] == ("NotIn",) and c[2][0] == bv]
+                good = bool(ks)
+                lists += ks
         ctx.check(good, "R2", f"UCLCHEM:{attr}:keyword filter", ("naunet/reactions/uclchemreaction.py", st[-1].line if st else fn.lineno),
                   f"tokens of the keyword list are removed before the {attr} are created")
+    ok = len(lists) == 2 and all(simp(k) == WANT for k in lists)
+    ctx.check(ok, "R2", "UCLCHEM:kwlist", ("naunet/reactions/uclchemreaction.py", fn.lineno), "the keyword list is every key of reactant2type plus the filler NAN",
+              found="; ".join(show(simp(k))[:100] for k in lists) or "missing")
     # KROME: reactants/products appended only when _create_species(value) is truthy
     kfn = pkg.method("KROMEReaction", "_parse_string")
     kfl = Flow(kfn, "naunet/reactions/kromereaction.py")
@@ -278,18 +280,26 @@ def _kida(ctx, pkg):
     file = pkg.cls(cls).file
     fn = pkg.method(cls, "_parse_string")
     fl = Flow(fn, file)
-    consts = {k: simp(v[-1][0]) for k, v in fl.assigns.items() if k in ("rlen", "plen")}
-    rl = consts.get("rlen", ("const", None))[1]
-    pl = consts.get("plen", ("const", None))[1]
+    line = ("meth", ("param", "react_string"), "strip", (), ())
+    # block widths by role: reactants are split from line[:RL], products from line[RL:RL+PL]
+    rl = pl = None
+    for f in fl.facts:
+        if f.kind == "attrstore" and f.target in ("reactants", "products"):
+            m0 = as_map(simp(f.value))
+            b0 = match(("meth", ("sub", line, ("slice", V("lo"), V("hi"), ("const", None))), "split", (), ()), m0[2]) if m0 else None
+            if b0 and f.target == "reactants" and b0["lo"] == ("const", None) and b0["hi"][0] == "const":
+                rl = b0["hi"][1]
+            if b0 and f.target == "products" and b0["hi"][0] == "binop" and b0["hi"][1] == "Add" and b0["hi"][3][0] == "const":
+                pl = b0["hi"][3][1]
     ctx.check(rl == 3 * 11 + 1 and pl == 5 * 11 + 1, "R4", "KIDA:widths", (file, fn.lineno),
               "reactant block = 3 names of 11 columns + 1, product block = 5 names of 11 columns + 1 (as naunet's own KIDA writer lays them out)",
               expected="rlen = 34, plen = 56", found=f"rlen = {rl}, plen = {pl}")
     # the writer
     w = pkg.method("Reaction", "__format__")
     wsrc = ast.unparse(w)
-    ctx.check("_fill_list([f'{x:<11}' for x in rnames], 3, dummy)" in wsrc and "_fill_list([f'{x:<11}' for x in pnames], 5, dummy)" in wsrc, "R4", "KIDA:writer-widths", (R, w.lineno),
+    fills = re.findall(r"_fill_list\(\[f'\{(\w+):<11\}' for \1 in \w+\], (\d), \w+\)", wsrc)
+    ctx.check(sorted(n_ for _, n_ in fills) == ["3", "5"], "R4", "KIDA:writer-widths", (R, w.lineno),
               "the KIDA writer pads 3 reactant and 5 product names to 11 columns each")
-    line = ("meth", ("param", "react_string"), "strip", (), ())
     RL, PL = ("const", rl), ("const", pl)
     want = {
         "reactants": ("slice", ("const", None), RL, ("const", None)),
@@ -331,19 +341,21 @@ def _leeds(ctx, pkg):
     fn = pkg.method(cls, "_parse_string")
     fl = Flow(fn, file)
 
-    def lit(name):
-        v = fl.assigns.get(name)
-        if not v:
-            return None
-        x = simp(v[-1][0])
+    def lit(x):
+        x = simp(x)
         return [e[1] for e in x[1]] if x[0] == "list" and all(e[0] == "const" for e in x[1]) else None
-    labels, widths = lit("list_label"), lit("list_strlen")
+    # by role: the cursor is the one variable advanced (+=) inside a loop over zip(<labels>, <widths>)
+    inc = [f for f in fl.facts if f.kind == "augassign" and len(f.loops) == 1 and simp(f.loops[0].iter)[0] == "call" and simp(f.loops[0].iter)[1] == ("global", "zip")]
+    labels = widths = None
+    if inc:
+        z = simp(inc[0].loops[0].iter)
+        if len(z[2]) == 2:
+            labels, widths = lit(z[2][0]), lit(z[2][1])
     ctx.check(labels == LEEDS_LABELS, "R3", "Leeds:labels", (file, fn.lineno), "the nine fields of a Leeds record, in file order", expected=str(LEEDS_LABELS), found=str(labels))
     ctx.check(widths == LEEDS_WIDTHS and sum(widths or []) == 125, "R4", "Leeds:widths", (file, fn.lineno),
               "column widths 5,30,50,8,9,10,5,5,3 (125 columns)", expected=str(LEEDS_WIDTHS), found=str(widths))
     # cursor: clip = line[stidx : stidx + len]; stidx += len once per field, unconditionally; starts at 0
-    inc = [f for f in fl.facts if f.kind == "augassign" and f.target == "stidx"]
-    init = fl.assigns.get("stidx", [])
+    init = fl.assigns.get(inc[0].target, []) if inc else []
     loopvar_ok = False
     if len(inc) == 1 and len(inc[0].loops) == 1:
         lp = inc[0].loops[0]
@@ -390,7 +402,7 @@ def _r6(ctx, rm, pkg):
     # UCLCHEM: unmarked reactions default to two-body
     fn = pkg.method("UCLCHEMReaction", "_parse_string")
     src = ast.unparse(fn)
-    ctx.check("self.reactant2type.get(rpspec[1], self.ReactionType.UCLCHEM_MA)" in src, "R6", "UCLCHEM:default type", ("naunet/reactions/uclchemreaction.py", fn.lineno),
+    ctx.check(re.search(r"self\.reactant2type\.get\(\w+\[1\], self\.ReactionType\.UCLCHEM_MA\)", src) is not None, "R6", "UCLCHEM:default type", ("naunet/reactions/uclchemreaction.py", fn.lineno),
               "the marker is the second token; records without a marker are two-body reactions")
 
 
